@@ -24,7 +24,7 @@ m = {
               'baseline_off_cmd': 'cd /repo && cargo nextest run --workspace --no-fail-fast --offline --test-threads 8',
               'source_commits': [], 'add_only': True},
     'engines': [{'name': 'verus-contracts', 'path': 'vc/check.py', 'serves_properties': claimed,
-                 'kind_free_text': 'mechanical extraction of real functions (raw source or rustc macro expansion) + spliced contracts, discharged by Verus (Z3)'}],
+                 'kind_free_text': 'contract-based deductive verification: mechanical extraction of real functions (raw source or rustc macro expansion) + spliced contracts, discharged by Verus (Z3)'}],
     'checks': [],
     'not_applicable': [{'property_id': k, 'reason': v} for k, v in sorted(NOT_APPLICABLE.items()) if k not in P.PROPS],
     'notes': 'exit 0 = all obligations discharged; exit 1 = VIOLATION (named obligation failed); exit 2 = UNDECIDED (never an alarm). See DESIGN.md.',
@@ -38,7 +38,7 @@ for pid in claimed:
         'evidence_file': 'evidence/%s.json' % pid,
         'replay_cmd_template': 'python3 vc/check.py %s --replay {path}' % pid,
         'engine': 'verus-contracts',
-        'level_claimed': {'category': 'proof', 'text': P.TEXT[pid] + ' Not covered: ' + cfg.get('not_covered', ''),
+        'level_claimed': {'category': 'proof', 'text': P.TEXT[pid] + P.BOUNDED_NOTE + ' Not covered by proof: ' + cfg.get('not_covered', ''),
                           'design_ref': 'DESIGN.md section 4, ' + pid},
         'level_note': P.NOTE,
         'technique': P.TECHNIQUE,
